@@ -20,6 +20,8 @@ def _rules():
         ("semantic minimiser: folding steps are exact", minimiser.steps_exact),
         ("semantic minimiser: emission is exact", minimiser.emission_exact),
         ("semantic minimiser: scratch vectors are reset per call", minimiser.scratch_reset),
+        ("add_clause stores exactly the negation of the predicates it was given", C02.u29),
+        ("every Option<bool> evaluator of a predicate is sound", predrules.evaluators_sound),
         ("label TABLE of the recursive minimiser", C02.u12),
         ("retention TABLE of the recursive minimiser", C02.u24),
         ("routing TABLE of conflict analysis", C02.u16),
